@@ -28,7 +28,7 @@ func init() {
 		"destination bytes == source ∧ done == length ∧ TO2 succeeds; altered ⇒ nothing at the destination ∧ failure reported (TO2 "+
 		"error, done = -1 or wget error); no hang (idle owner module for 40 rounds = stall), no panic. distinct = distinct (module, "+
 		"size, content seed, chunk size, both message sizes, name, flags, alteration); trivial = honest single-chunk transfer at "+
-		"default sizes", c17)
+		"default sizes; two fdo.download transfers in one session", c17)
 }
 
 // ---------- derived quantities (harness-side arithmetic only for generating interesting sizes) ----------
